@@ -143,7 +143,7 @@ def run(ctx):
     if not f:
         ctx.missing("C19.display", "<ShapeType as Display>::fmt")
     else:
-        ps, _ = util.run_fn(F, f)
+        ps, _ = util.run_fn(F, f, summarise_pure=False)       # a private name-table helper is followed, not summarised
         scrut = None
         for p in ps:
             for t, v in p.cons:
